@@ -26,6 +26,8 @@ type c04Atom struct {
 	Entry   string   // closed entry function template ("" if none): func() uint64 unless EntryUnit
 	Unit    bool     // entry returns nothing
 	Kinds   string   // declaration kind x reference kind, for the evidence
+	Family  string   // "" hand-written | type-matrix | value-matrix | imported-twin (generated, c04matrix.go)
+	Fixed   []string // top-level names the atom declares that do not carry the instance id
 }
 
 const (
@@ -137,6 +139,8 @@ type declSet struct {
 	Imports []importSpec
 	Atoms   []string
 	Extra   map[string]map[string]string // sibling packages (rel dir -> files) the set imports
+	Helper  bool                         // the only imports are the generated helper packages (c04matrix.go)
+	Family  string
 }
 
 func c04DirectedSets(skip map[string]bool) []*declSet {
@@ -151,22 +155,54 @@ func c04DirectedSets(skip map[string]bool) []*declSet {
 		}
 		out = append(out, ds)
 	}
+	for i, a := range c04GeneratedAtoms() {
+		if skip[a.Name] {
+			continue
+		}
+		id := fmt.Sprintf("g%03d", i)
+		ds := &declSet{ID: id, Origin: "directed:" + a.Name, PkgName: id, Atoms: []string{a.Name}, Family: a.Family}
+		for _, d := range a.Decls {
+			ds.Units = append(ds.Units, inst(d, "0"))
+		}
+		ds.attachHelpers()
+		out = append(out, ds)
+	}
 	return out
 }
 
 // c04RandomSet composes several atoms into one package with glue declarations on top (a DAG).
 func c04RandomSet(rng *core.Rng, id string, skip map[string]bool) *declSet {
 	ds := &declSet{ID: id, Origin: "random", PkgName: id}
-	var pool []c04Atom
+	var pool, gpool []c04Atom
 	for _, a := range c04Atoms {
 		if !skip[a.Name] {
 			pool = append(pool, a)
 		}
 	}
+	for _, a := range c04GeneratedAtoms() {
+		if !skip[a.Name] {
+			gpool = append(gpool, a)
+		}
+	}
 	n := 3 + rng.Intn(5)
 	var entries, unitEntries, consts []string
+	fixed := map[string]bool{}
 	for k := 0; k < n; k++ {
 		a := pool[rng.Intn(len(pool))]
+		if len(gpool) > 0 && rng.Bool() {
+			// a generated atom; atoms declaring a name without instance id must not meet the same name twice
+			g := gpool[rng.Intn(len(gpool))]
+			clash := false
+			for _, f := range g.Fixed {
+				clash = clash || fixed[f]
+			}
+			if !clash {
+				a = g
+				for _, f := range g.Fixed {
+					fixed[f] = true
+				}
+			}
+		}
 		sid := fmt.Sprintf("%d", k)
 		ds.Atoms = append(ds.Atoms, a.Name)
 		for _, d := range a.Decls {
@@ -213,6 +249,7 @@ func c04RandomSet(rng *core.Rng, id string, skip map[string]bool) *declSet {
 		ds.Units = append(ds.Units, b.String())
 		glue = append(glue, fmt.Sprintf("glue%d", g))
 	}
+	ds.attachHelpers()
 	return ds
 }
 
@@ -367,4 +404,68 @@ func (l layout) positions(n int) (fileRank, pos []int) {
 		}
 	}
 	return
+}
+
+// cutLayouts: every order of n declarations in one file, plus for every order `cuts` cuts into two files
+// (rotating through the cut points), under both lexical orders of the file names or alternating ones.
+func cutLayouts(n, cuts int, bothNames bool) []layout {
+	names := [][2]string{{"a_f1.go", "z_f2.go"}, {"z_f1.go", "A_f2.go"}}
+	var out []layout
+	for pi, p := range permutations(n) {
+		out = append(out, layout{Files: []layoutFile{{Name: "m_f0.go", Units: p}}, Desc: "every-order-1-file"})
+		for c := 0; c < cuts && n > 1; c++ {
+			cut := 1 + (pi+c)%(n-1)
+			for ni, nm := range names {
+				if !bothNames && ni != (pi/(n-1))%2 {
+					continue
+				}
+				out = append(out, layout{Files: []layoutFile{
+					{Name: nm[0], Units: append([]int{}, p[:cut]...)},
+					{Name: nm[1], Units: append([]int{}, p[cut:]...)},
+				}, Desc: "rotating-cut-2-files"})
+			}
+		}
+	}
+	return out
+}
+
+// familyLayouts: the layouts of a set of a generated family. 2 declarations: exhaustive; 3: every order, one
+// cut per order under both name orders; 4: every order, one cut per order, name orders alternating; more: every order.
+func familyLayouts(n int) []layout {
+	switch {
+	case n <= 2:
+		return exhaustiveLayouts(n)
+	case n == 3:
+		return cutLayouts(n, 1, true)
+	case n == 4:
+		return cutLayouts(n, 1, false)
+	}
+	return cutLayouts(n, 0, false)
+}
+
+// typecheckLayouts: the layouts translated a second time with -typecheck: 2 declarations exhaustive; otherwise every
+// order in one file and, for every second order, one cut into two files (at most ~60 layouts per set).
+func typecheckLayouts(n int) []layout {
+	if n <= 2 {
+		return exhaustiveLayouts(n)
+	}
+	var l []layout
+	if n <= 4 {
+		for i, x := range cutLayouts(n, 1, false) {
+			// cutLayouts yields (one file, two files) pairs per order
+			if len(x.Files) == 1 || (i/2)%2 == 0 {
+				l = append(l, x)
+			}
+		}
+	} else {
+		l = cutLayouts(n, 0, false)
+	}
+	if len(l) <= 60 {
+		return l
+	}
+	var out []layout
+	for i := 0; i < 60; i++ {
+		out = append(out, l[i*len(l)/60])
+	}
+	return out
 }
